@@ -933,6 +933,11 @@ class NumaNode(Node):
             for nd in self.numa_domains.values():
                 slot = nd.find_slot(rr)
                 if slot:
+                    # lfs and mem are node level resources: the numa domain
+                    # does not account for them, `deallocate_slot` credits
+                    # them back to this node
+                    if self.lfs is not None: self.lfs -= slot.lfs
+                    if self.mem is not None: self.mem -= slot.mem
                     return slot
 
 # ------------------------------------------------------------------------------
